@@ -19,6 +19,7 @@ MUTS.append(("S3 seeded C08-b: generic complete_non_nullable_value checks only a
 MUTS.append(("S4 seeded C09-c: collect_fields._merge moves a re-selected key to the end", None, "/verif/seeded/C09-c/patch.diff", None, ["C09"]))
 MUTS.append(("S5 seeded C09-d: resolve_field skips unwrap_value for the default resolver", None, "/verif/seeded/C09-d/patch.diff", None, ["C09", "C08"]))
 MUTS.append(("S6 seeded C09-e: _copy_error uses copy.copy (re-calls the constructor)", None, "/verif/seeded/C09-e/patch.diff", None, ["C09", "C08"]))
+MUTS.append(("S7 seeded C08-e: AsyncIORuntime.wrap_callable goes through self.submit(func, ...)", None, "/verif/seeded/C08-e/patch.diff", None, ["C08"]))
 MUTS.append(("S2 seeded C09-a: execute() dispatches on root_type identity", None, "/verif/seeded/C09-a/patch.diff", None, ["C09"]))
 only = sys.argv[1:]
 env = dict(os.environ, PYGQL_REPO=WT)
